@@ -3,6 +3,7 @@ import CnvVerif.Driver.Interval
 import CnvVerif.Driver.Call
 import CnvVerif.Driver.CallCmd
 import CnvVerif.Driver.SegFilter
+import CnvVerif.Driver.SegFilterExt
 import CnvVerif.Driver.Tile
 import CnvVerif.Driver.Center
 import CnvVerif.Driver.Fix
@@ -25,7 +26,7 @@ import CnvVerif.Driver.StatsGlue
 open Lean CnvVerif.Drv
 
 def handlers : List (String → Json → Option Json → R (Option Json)) :=
-  [handleInterval, handleCall, handleCallCmd, handleSegFilter, handleTile, handleCenter, handleFix, handleAccess, Genes.handleGenes, handleFormats, handleFormatsExt, handleExport, handleExportExt, Reference.handleReference, handleCoverage, handleCoverageExt, handleEffects, handleBins, handleVcf, handleDescriptives, Haar.handleHaar, handleStats, handleStatsGlue]
+  [handleInterval, handleCall, handleCallCmd, handleSegFilter, handleSegFilterExt, handleTile, handleCenter, handleFix, handleAccess, Genes.handleGenes, handleFormats, handleFormatsExt, handleExport, handleExportExt, Reference.handleReference, handleCoverage, handleCoverageExt, handleEffects, handleBins, handleVcf, handleDescriptives, Haar.handleHaar, handleStats, handleStatsGlue]
 
 def dispatch (op : String) (inp : Json) (impl : Option Json) : R Json := do
   for h in handlers do
